@@ -304,6 +304,9 @@ func diagCases() []diagCase {
 		dc("undefined / unused", "undefined names under each operator are all reported", "S", gSeq(gQ(gN("A")), gStar(gN("B")), gAnd(gN("D")), gNot(gN("E")), gPush(gN("F")), gAlt(gC("x"), gN("G")))),
 		dc("undefined / unused", "clean grammar is silent", "S", gSeq(gN("A"), gNot(gDot())), "A", gAlt(gSeq(gC("a"), gQ(gN("A"))), gC("b"))),
 		dc("duplicate definition", "rule defined twice", "A", gC("b"), "A", gC("c")),
+		dc("duplicate definition", "rule defined three times, followed by another rule", "A", gSeq(gC("a"), gN("B")), "A", gC("b"), "A", gC("c"), "B", gC("d")),
+		dc("duplicate definition", "two different rules defined twice, with an action", "S", gSeq(gN("A"), gN("B"), gAct()), "A", gC("a"), "A", gC("b"), "B", gC("c"), "B", gC("d")),
+		dc("undefined / unused", "referenced rule with an explicitly empty body is defined", "S", gSeq(gN("B"), gC("x")), "B", gNil()),
 		dc("duplicate definition", "rule defined twice, referenced", "S", gSeq(gN("A"), gNot(gDot())), "A", gC("b"), "A", gC("c")),
 	}
 }
